@@ -137,6 +137,10 @@ func c03List(tier string) []c03Params {
 								out = append(out, c03Params{c03Mode: m, RF: []simnet.RFault{{Dir: dir, N: 0, Kind: simnet.RRewrite, Off: how}}})
 							}
 						}
+						// structured rewrites of other messages (a record they do not apply to: trivial)
+						for how := 3; how <= 5; how++ {
+							out = append(out, c03Params{c03Mode: m, RF: []simnet.RFault{{Dir: dir, N: rec, Kind: simnet.RRewrite, Off: how}}})
+						}
 						for _, typ := range []byte{20, 21, 22, 23, 24} {
 							inj := [][]byte{{typ, 1, 1, 0, 1, 1}, {typ, 1, 1, 0, 2, 1, 0}, {typ, 1, 1, 0, 0}, append([]byte{typ, 1, 1, 0, 8}, 20, 0, 0, 4, 1, 2, 3, 4)}
 							for _, b := range inj {
@@ -157,6 +161,9 @@ func c03List(tier string) []c03Params {
 							for _, mk := range []byte{0x01, 0xff} {
 								out = append(out, c03Params{c03Mode: m, DF: []simnet.DFault{{Dir: dir, N: rec, Kind: simnet.FCorrupt, P: int64(off), Mask: mk}}})
 							}
+						}
+						for how := 3; how <= 5; how++ {
+							out = append(out, c03Params{c03Mode: m, DF: []simnet.DFault{{Dir: dir, N: rec, Kind: simnet.FRewrite, P: int64(how)}}})
 						}
 						for _, k := range []string{simnet.FDrop, simnet.FDup} {
 							out = append(out, c03Params{c03Mode: m, DF: []simnet.DFault{{Dir: dir, N: rec, Kind: k}}})
@@ -392,6 +399,10 @@ func (c03) Run(c *Case, src *vs.Src) *Result {
 	}
 	if !equalDERs(o.CCS.Peer, b.CCS.Peer) || !equalDERs(o.SCS.Peer, b.SCS.Peer) {
 		r.Violate("views-differ", sigp+" peer-certificates-differ "+kind, "peer certificate lists differ from the untampered handshake; fault %s", fault)
+	}
+	if p.Stack == DTLCP && len(p.DF) == 1 && p.DF[0].Kind == simnet.FRewrite && att.allFired && att.timeouts == 0 {
+		// same rule for a structured rewrite (it changes the body of a ChangeCipherSpec or Certificate message)
+		r.Violate("tampered-accepted", sigp+" rewritten-message-accepted-without-retransmission", "both endpoints completed without any timer expiring although datagram %d in direction %d was rewritten in transit (form %d): the rewritten message was accepted", p.DF[0].N, p.DF[0].Dir, p.DF[0].P)
 	}
 	if p.Stack == DTLCP && len(p.DF) == 1 && p.DF[0].Kind == simnet.FCorrupt && att.allFired && att.timeouts == 0 {
 		// a datagram endpoint may drop a damaged message and accept its retransmission - but nothing is
